@@ -81,7 +81,10 @@ func (x *XArray) Format(env envs.Environment) string {
 	if multiline {
 		for i, p := range parts {
 			p = utils.Indent(p, "  ")
-			parts[i] = "-" + p[1:]
+			if len(p) > 0 {
+				p = p[1:] // drop one character of the indent to make room for the dash
+			}
+			parts[i] = "-" + p
 		}
 
 		return strings.Join(parts, "\n")
